@@ -614,3 +614,117 @@ Section LexTotal.
       + exfalso. apply Hp. reflexivity.
   Qed.
 End LexTotal.
+
+(* ------------------------------------------------------------------ round trip of quoted atoms *)
+Lemma index_byte_app : forall b w rest, index_byte b w = None ->
+  index_byte b (w ++ b :: rest) = Some (length w).
+Proof.
+  intros b. induction w as [|x t IH]; intros rest H; simpl in *.
+  - rewrite N.eqb_refl. reflexivity.
+  - destruct (N.eqb x b); [discriminate|].
+    destruct (index_byte b t) eqn:E; [discriminate|].
+    rewrite (IH rest eq_refl). reflexivity.
+Qed.
+
+Lemma contains_none : forall b w, contains_byte b w = false -> index_byte b w = None.
+Proof. intros b w H. unfold contains_byte in H. destruct (index_byte b w); [discriminate | reflexivity]. Qed.
+
+Lemma firstn_app_exact : forall (w l : bytes), firstn (length w) (w ++ l) = w.
+Proof. induction w as [|x t IH]; intros l; simpl; [reflexivity | rewrite IH; reflexivity]. Qed.
+
+Lemma skipn_app_exact : forall (w : bytes) x rest, skipn (S (length w)) (w ++ x :: rest) = rest.
+Proof. induction w as [|y t IH]; intros x rest; [reflexivity | apply IH]. Qed.
+
+Lemma unquote_prefix_plain : forall w rest, plain w = true ->
+  unquote_prefix (34%N :: w ++ 34%N :: rest) = ROk (Some (w, rest)).
+Proof.
+  intros w rest Hp. unfold plain in Hp.
+  apply andb_prop in Hp. destruct Hp as [Hp H42]. apply andb_prop in Hp. destruct Hp as [H34 H92].
+  apply negb_true_iff in H34, H92, H42.
+  unfold unquote_prefix.
+  assert (Hlen : Nat.ltb (length (34%N :: w ++ 34%N :: rest)) 2 = false).
+  { apply Nat.ltb_ge. cbn [length]. rewrite app_length. cbn [length]. lia. }
+  rewrite Hlen.
+  change (negb (N.eqb 34 34 || N.eqb 34 96 || N.eqb 34 39)) with false. cbv iota.
+  rewrite (index_byte_app 34 w rest (contains_none _ _ H34)).
+  rewrite slice_ok by (cbn [length]; try rewrite app_length; cbn [length]; lia).
+  cbn [rbind].
+  replace (firstn (S (length w) - 1) (skipn 1 (34%N :: w ++ 34%N :: rest))) with w.
+  2:{ cbn [skipn]. replace (S (length w) - 1) with (length w) by lia.
+      rewrite firstn_app_exact. reflexivity. }
+  unfold need_unquote. rewrite H92, H42. cbn [orb negb].
+  rewrite slice_from_ok by (cbn [length]; try rewrite app_length; cbn [length]; lia).
+  cbn [rbind].
+  replace (skipn (S (S (length w))) (34%N :: w ++ 34%N :: rest)) with rest.
+  2:{ change (skipn (S (S (length w))) (34%N :: w ++ 34%N :: rest))
+        with (skipn (S (length w)) (w ++ 34%N :: rest)).
+      rewrite skipn_app_exact. reflexivity. }
+  reflexivity.
+Qed.
+
+Section RT.
+  Variables is_space is_letter is_digit : N -> bool.
+  Hypothesis sp32 : is_space 32 = true.
+  Hypothesis sp34 : is_space 34 = false.
+  Hypothesis le34 : is_letter 34 = false.
+  Hypothesis di34 : is_digit 34 = false.
+
+  Lemma decode_ascii : forall b t, N.ltb b 128 = true -> decode (b :: t) = (b, 1).
+  Proof. intros b t H. unfold decode. rewrite H. reflexivity. Qed.
+
+  Lemma skip_spaces_32_34 : forall f t sp,
+    skip_spaces is_space (S (S f)) (32%N :: 34%N :: t) sp = ROk (34%N :: t, true).
+  Proof.
+    intros f t sp. cbn [skip_spaces].
+    rewrite (decode_ascii 32) by reflexivity. cbv beta iota zeta.
+    rewrite sp32. cbn [skipn].
+    rewrite (decode_ascii 34) by reflexivity. cbv beta iota zeta.
+    rewrite sp34. reflexivity.
+  Qed.
+
+  Lemma scan_token_34 : forall f t,
+    scan_token is_letter is_digit (S f) (34%N :: t) 0 = ROk 0.
+  Proof.
+    intros f t. cbn [scan_token].
+    rewrite (decode_ascii 34) by reflexivity. cbv beta iota zeta.
+    unfold is_token_rune. rewrite le34, di34. reflexivity.
+  Qed.
+
+  Lemma next_dq : forall w rest sp f, plain w = true ->
+    next is_space is_letter is_digit (S f) (32%N :: 34%N :: w ++ 34%N :: rest) sp
+    = ROk (dq_tok w, rest).
+  Proof.
+    intros w rest sp f Hp. cbn [next].
+    rewrite (decode_ascii 32) by reflexivity. cbv beta iota zeta.
+    change (N.eqb 32 RuneError) with false. cbv iota.
+    cbn [length]. rewrite skip_spaces_32_34. cbn [rbind]. cbv beta iota zeta.
+    rewrite (decode_ascii 34) by reflexivity. cbv beta iota zeta.
+    change (N.eqb 34 35) with false. cbv iota.
+    cbn [length]. rewrite scan_token_34. cbn [rbind]. cbv beta iota zeta.
+    change (Nat.ltb 0 0) with false. cbv iota.
+    change (N.eqb 34 42) with false. cbv iota.
+    change (N.eqb 34 39 || N.eqb 34 34) with true. cbv iota.
+    rewrite (unquote_prefix_plain w rest Hp). cbn [rbind]. reflexivity.
+  Qed.
+
+  Lemma lex_all_render : forall ws f, forallb plain ws = true ->
+    length (render_dq ws) < f ->
+    lex_all is_space is_letter is_digit f (render_dq ws) = ROk (map dq_tok ws).
+  Proof.
+    induction ws as [|w r IH]; intros f Hp Hf.
+    - destruct f; [simpl in Hf; lia|]. reflexivity.
+    - destruct f; [lia|]. simpl in Hp. apply andb_prop in Hp. destruct Hp as [Hw Hr].
+      cbn [lex_all render_dq].
+      rewrite (next_dq w (render_dq r) false _ Hw). cbn [rbind].
+      assert (He : is_end (dq_tok w) (render_dq r) = false).
+      { unfold is_end. destruct (render_dq r); destruct w; reflexivity. }
+      rewrite He.
+      rewrite (IH f Hr).
+      + reflexivity.
+      + cbn [render_dq length] in Hf. rewrite app_length in Hf. cbn [length] in Hf. lia.
+  Qed.
+
+  Lemma lex_render_dq : forall ws, forallb plain ws = true ->
+    lex is_space is_letter is_digit (render_dq ws) = ROk (map dq_tok ws).
+  Proof. intros ws Hp. unfold lex. apply lex_all_render; [exact Hp | lia]. Qed.
+End RT.
